@@ -32,6 +32,8 @@ pub struct WalkCfg {
     pub allow_subscribe: bool,
     pub allow_loops: bool,
     pub allow_ready: bool,
+    /// senders that must fail locally (id in use, over-long topic, over peer max packet size)
+    pub allow_local_failures: bool,
     /// QoS 2 receipts are released by an explicit action (C14) instead of immediately
     pub manual_release: bool,
     /// probability (percent) of `rounds(k)` instead of full quiescence after an action
@@ -59,6 +61,14 @@ impl WalkCfg {
         }
         if self.allow_backpressure {
             c.write_buf = Some((256, 64));
+        }
+        if self.allow_local_failures {
+            // v5: the peer announces a Maximum Packet Size of 1000 bytes
+            match self.role {
+                Role::V5Server => c.peer_max_packet_size = Some(1000),
+                Role::V5Client => c.connack_props.push(crate::refcodec::Prop::U32(0x27, 1000)),
+                _ => {}
+            }
         }
         c
     }
@@ -204,6 +214,12 @@ impl PeerModel {
 
 #[derive(Debug, Clone, Copy, PartialEq, Eq)]
 pub enum SenderKind {
+    /// QoS 1 with a caller-chosen packet id (collisions on purpose)
+    Q1Pid(u16),
+    /// topic longer than 65535 bytes: must fail locally
+    BadTopic,
+    /// v5: bigger than the peer's Maximum Packet Size: must fail locally
+    TooBig,
     Q1,
     Q2,
     LoopQ1,
@@ -247,6 +263,13 @@ fn make_sender(app: &Rc<App>, sink: &Sink, kind: SenderKind, manual_release: boo
     let mut receipt = None;
     let fut: crate::sink::BoxFut<SinkRes> = match kind {
         SenderKind::Q1 => sink.send_qos1(&PubSpec::new("w/q1", payload_for(id, 0))),
+        SenderKind::Q1Pid(p) => sink.send_qos1(&PubSpec::new("w/q1p", payload_for(id, 0)).pid(Some(p))),
+        SenderKind::BadTopic => sink.send_qos1(&PubSpec::new(&"t".repeat(65_540), payload_for(id, 0))),
+        SenderKind::TooBig => {
+            let mut pl = payload_for(id, 0);
+            pl.resize(2_000, b'#');
+            sink.send_qos1(&PubSpec::new("w/big", pl))
+        }
         SenderKind::Q2 => {
             let ch = Chan::new();
             if !manual_release {
@@ -332,6 +355,15 @@ pub async fn walk(cfg: &WalkCfg, ch: &mut dyn Choose) -> WalkOutcome {
     if cfg.allow_ready {
         kinds.push(SenderKind::ReadyThenQ1);
         kinds.push(SenderKind::Ready);
+    }
+    if cfg.allow_local_failures {
+        kinds.push(SenderKind::Q1Pid(1));
+        kinds.push(SenderKind::Q1Pid(2));
+        kinds.push(SenderKind::Q1Pid(65535));
+        kinds.push(SenderKind::BadTopic);
+        if cfg.role.is_v5() {
+            kinds.push(SenderKind::TooBig);
+        }
     }
     if cfg.allow_subscribe && !cfg.role.is_server() {
         kinds.push(SenderKind::Subscribe);
@@ -549,7 +581,21 @@ pub async fn walk(cfg: &WalkCfg, ch: &mut dyn Choose) -> WalkOutcome {
                     what: format!("op {} never completed although the peer acknowledged everything it received", s.op.id),
                 });
             } else if let Some(r) = s.op.result() {
-                if !s.cancelled && !r.is_ok() && r != SinkRes::Dropped {
+                let must_fail = matches!(s.kind, SenderKind::BadTopic | SenderKind::TooBig);
+                // with caller-chosen ids in play an automatic id may legitimately collide with one of them
+                let may_fail = cfg.allow_local_failures && matches!(r, SinkRes::ErrIdInUse(_));
+                if must_fail {
+                    if matches!(r, SinkRes::ErrEncode(_) | SinkRes::ErrIdInUse(_)) {
+                        *out.stats.entry("local_failures_as_expected").or_insert(0) += 1;
+                    } else if !s.cancelled {
+                        out.violations.push(Violated {
+                            class: format!("send that cannot be encoded did not fail locally ({:?})", s.kind),
+                            what: format!("op {} result {r:?}", s.op.id),
+                        });
+                    }
+                } else if may_fail {
+                    *out.stats.entry("id_in_use_refusals").or_insert(0) += 1;
+                } else if !s.cancelled && !r.is_ok() && r != SinkRes::Dropped {
                     out.violations.push(Violated {
                         class: format!("sender {:?} failed on a healthy connection: {}", s.kind, crate::pool::abstract_numbers(&format!("{r:?}"))),
                         what: format!("op {} result {r:?}", s.op.id),
